@@ -52,5 +52,5 @@ func (g *GlobalReportRequestCodec) Encode(in interface{}) []byte {
 
 // GetMessageType get global report request's message type
 func (g *GlobalReportRequestCodec) GetMessageType() message.MessageType {
-	return message.MessageTypeGlobalReportResult
+	return message.MessageTypeGlobalReport
 }
